@@ -81,47 +81,42 @@ is the sum over the cells of their common sample length. -/
 theorem rows_count_wide {t : List Cell} {tb : Table} (h : toWideRows t = .ok tb) :
     wideRowCount t = some tb.rows.length := by
   unfold toWideRows at h
-  dsimp only at h
   cases hm : t.mapM (fun c => cellWideRows c (allMetadataNames t) (allFields t)) with
-  | error e => simp [hm, bind, Except.bind] at h
+  | error e => simp [hm, Except.bind] at h
   | ok rss =>
-    simp only [hm, bind, Except.bind] at h
+    simp only [hm, Except.bind] at h
     cases hd : dropConstantScenario rss.flatten with
-    | error e => simp [hd] at h
+    | error e => simp [hd, Except.map] at h
     | ok rows =>
-      simp only [hd, pure, Except.pure] at h
+      simp only [hd, Except.map] at h
       cases h
       unfold wideRowCount
       dsimp only
       rw [mapM_transfer _ _ List.length ?_ t rss hm]
-      · simp [dropConstantScenario_length hd]
+      · simp [mkTable, dropConstantScenario_length hd]
       · intro a b hab
         simp [cellWideRows_length hab]
-
 
 /-- **rows_count (long).** The long table has one row per cell, scenario and field present in
 that scenario. -/
 theorem rows_count_long {t : List Cell} {tb : Table} (h : toLongRows t = .ok tb) :
     longRowCount t = some tb.rows.length := by
   unfold toLongRows at h
-  dsimp only at h
   cases hm : t.mapM (fun c => cellLongRows c (allMetadataNames t)) with
-  | error e => simp [hm, bind, Except.bind] at h
+  | error e => simp [hm, Except.bind] at h
   | ok rss =>
-    simp only [hm, bind, Except.bind] at h
+    simp only [hm, Except.bind] at h
     cases hd : dropConstantScenario rss.flatten with
-    | error e => simp [hd] at h
+    | error e => simp [hd, Except.map] at h
     | ok rows =>
-      simp only [hd, pure, Except.pure] at h
+      simp only [hd, Except.map] at h
       cases h
       unfold longRowCount
-      dsimp only
       rw [mapM_transfer _ _ List.length ?_ t rss hm]
-      · simp [dropConstantScenario_length hd]
+      · simp [mkTable, dropConstantScenario_length hd]
       · intro a b hab
         obtain ⟨fds, hf, hl⟩ := cellLongRows_length hab
         simp [hf, hl]
-
 
 /-! ### non-vacuity and a concrete round trip (kernel evaluation of the model) -/
 
